@@ -11,7 +11,9 @@ K: an abstract pool of rules files (colliding group names, bundle imports with a
    compared with the model run inside coqc (vm_compute), rule acceptance being measured rule by rule in fresh engines.
 O: observational oracles that do not use the model: a failing call changes neither groups nor reports; a successful call adds
    exactly the groups the file yields alone and composes reports (first loaded rule wins on single-match tags, all rules on
-   multi-match tags); no panic; a RunnerState created earlier in the history behaves like a fresh one.
+   multi-match tags); no panic; a RunnerState created earlier in the history behaves like a fresh one; a file loaded alone yields
+   the groups its text says: its own and, for every ImportRules(prefix, bundle) call, the bundle's groups under that prefix (a bundle
+   imported under two prefixes twice; a name brought twice is a redefinition).
 """
 import json
 import os
@@ -85,6 +87,30 @@ def run(c):
         multi_vals = {d["tag_values"].get(n) for n in multi_names}
         node_tags = d["node_tags"]
         singles = {(s["file"], s["filter"]): s for s in d["singles"]}
+        # a file loaded alone: its groups are what its text says -- the groups of the file itself and, for EVERY ImportRules(prefix,
+        # bundle) of its init function, the groups of the bundle's files under that prefix (one bundle imported under two prefixes
+        # brings its groups twice), as far as the GroupFilter accepts them; a name that occurs twice among them is a redefinition
+        for sg in d["singles"]:
+            rf = d["files"][sg["file"]]
+            if rf.get("broken"):
+                continue
+            said = [g["name"] for g in rf["main"]["groups"]]
+            for b in rf.get("bundles") or []:
+                for sf in b["files"]:
+                    said += [(b["prefix"] + "/" + g["name"]) if b["prefix"] else g["name"] for g in sf["groups"]]
+            if sg["filter"] >= 0:
+                said = [n for n in said if n in d["filters"][sg["filter"]]]
+            sinp = {"seed": seed, "file": sg["file"], "rules.go": d["sources"][sg["file"]],
+                    "filter": d["filters"][sg["filter"]] if sg["filter"] >= 0 else None}
+            got = sorted(g["name"] for g in sg["groups"])
+            if sg["load"]["ok"] and got != sorted(said):
+                c.fail("oracle", "the groups of a rules file loaded alone are not the groups of the file and of the bundles it imports (each under "
+                       "the prefix of its ImportRules call)", input=sinp, observed=got, expected=sorted(said))
+            elif sg["load"]["ok"] and len(set(said)) != len(said):
+                c.fail("oracle", "a rules file that brings the same group name twice (one bundle imported twice under one prefix) loads", input=sinp,
+                       observed=got, expected="a redefinition error")
+            if len(set(said)) != len(said):
+                c.coverage["files_with_a_repeated_bundle_import"] = c.coverage.get("files_with_a_repeated_bundle_import", 0) + 1
         for hi, h in enumerate(d["histories"]):
             def inp(upto):
                 return {"seed": seed, "history": hi, "ops": h["ops"][:upto + 1],
